@@ -22,6 +22,8 @@ inductive PVs where
   | cons (h : PV) (t : PVs)
 end
 
+deriving instance DecidableEq for PV, PVs
+
 def PVs.ofList : List PV → PVs
   | [] => .nil
   | x :: xs => .cons x (PVs.ofList xs)
